@@ -90,7 +90,7 @@ func c17(c *ctx) {
 	defer out.Close()
 	shapes := vh.Shapes{}
 	meta := &vh.Meta{Property: "C17", Tier: c.tier, Seed: c.seed,
-		Rule: "traces = a handshake through each library-owned selection path (Upgrader Protocol / Extension / Negotiate with wsflate and a table negotiator, HTTPUpgrader Protocol / Extension / Negotiate, Dialer protocols and extensions with parameters), close reasons from HandleClose, payloads from ReadMessage / ReadData, each followed by R rounds of {recycle every size class of pbufio/pbytes/writer pools with a pattern, run the same operation again with different contents of equal length, re-read every earlier result}; write side: WriteMessage (client), Writer.Write/WriteThrough (client), CipherWriter, MaskFrame/MaskFrameWith/UnmaskFrame with payload sizes across the pool classes; distinct = (path, payload size class)"}
+		Rule: "traces = a handshake through each library-owned selection path (Upgrader Protocol / Extension / Negotiate with wsflate and a table negotiator, HTTPUpgrader Protocol / Extension / Negotiate, Dialer protocols and extensions with parameters), close reasons from HandleClose, payloads from ReadMessage / ReadData, each followed by R rounds of {recycle every size class of pbufio/pbytes/writer pools with a pattern, run the same operation again with different contents of equal length, re-read every earlier result}; write side: WriteMessage / Writer.Write / WriteThrough / WriteFrame on both sides, CipherWriter, MaskFrame/MaskFrameWith/UnmaskFrame with payload sizes across the pool classes; distinct = (path, payload size class)"}
 	n := 0
 	rounds := 3
 	if c.thorough {
@@ -304,6 +304,11 @@ func c17(c *ctx) {
 		var dst bytes.Buffer
 		f(p, &dst)
 		same := bytes.Equal(p, keep)
+		// the caller still owns its slice: pooled buffers of every size class are recycled and overwritten
+		// while it holds on to it
+		recycle(2)
+		recycle(3)
+		same = same && bytes.Equal(p, keep)
 		sent := append([]byte(nil), dst.Bytes()...)
 		for i := range p {
 			p[i] = 0xEE // the caller reuses its slice
@@ -315,8 +320,24 @@ func c17(c *ctx) {
 		n++
 		shapes.Add("%s/%d", op, sz)
 	}
-	for _, sz := range []int{0, 1, 7, 8, 125, 126, 4096, 65536, 70000} {
+	for _, sz := range []int{0, 1, 7, 8, 125, 126, 128, 256, 512, 1024, 4096, 32768, 65536, 70000} {
 		sz := sz
+		writeCase(fmt.Sprintf("write/WriteServerMessage/%d", sz), "WriteServerMessage", sz, func(p []byte, d io.Writer) {
+			wsutil.WriteServerMessage(d, ws.OpBinary, p)
+		})
+		writeCase(fmt.Sprintf("write/Writer.Write.server/%d", sz), "Writer.Write.server", sz, func(p []byte, d io.Writer) {
+			w := wsutil.NewWriterSize(d, ws.StateServerSide, ws.OpBinary, 100)
+			w.Write(p)
+			w.Flush()
+		})
+		writeCase(fmt.Sprintf("write/WriteThrough.server/%d", sz), "WriteThrough.server", sz, func(p []byte, d io.Writer) {
+			w := wsutil.NewWriter(d, ws.StateServerSide, ws.OpBinary)
+			w.WriteThrough(p)
+			w.Flush()
+		})
+		writeCase(fmt.Sprintf("write/WriteFrame.server/%d", sz), "WriteFrame.server", sz, func(p []byte, d io.Writer) {
+			ws.WriteFrame(d, ws.NewBinaryFrame(p))
+		})
 		writeCase(fmt.Sprintf("write/WriteMessage/%d", sz), "WriteMessage", sz, func(p []byte, d io.Writer) {
 			wsutil.WriteClientMessage(d, ws.OpBinary, p)
 		})
